@@ -112,11 +112,11 @@ func formatNumberUnitLong[T NumberType](amount T, unit Unit, displayZero bool) s
 	}
 	switch {
 	case amount == 1 || amount == -1:
-		return fmt.Sprintf(formatString, amount) + unit.NameLongSingular()
+		return trimFraction(fmt.Sprintf(formatString, amount)) + unit.NameLongSingular()
 	case amount != 0:
-		return fmt.Sprintf(formatString, amount) + unit.NameLongPlural()
+		return trimFraction(fmt.Sprintf(formatString, amount)) + unit.NameLongPlural()
 	case displayZero:
-		return fmt.Sprintf(formatString, amount) + unit.NameLongPlural()
+		return trimFraction(fmt.Sprintf(formatString, amount)) + unit.NameLongPlural()
 	default:
 		return ""
 	}
@@ -202,7 +202,7 @@ func (u *UnitsDefinition) FormatLongInt(data int64) string {
 	for _, multiplier := range u.getSortedMultipliersCache() {
 		base := int64(math.Floor(float64(remainder) / float64(multiplier)))
 		remainder -= base * multiplier
-		output += u.Multipliers()[multiplier].FormatLongInt(remainder, false)
+		output += u.Multipliers()[multiplier].FormatLongInt(base, false)
 	}
 	output += u.BaseUnit().FormatLongInt(remainder, false)
 	return output
